@@ -373,6 +373,19 @@ inline void faultInputs(Ctx& C, bool thorough) {
                  MValue::str(std::string(40, 'x'))};
   G.keys = {"a", "b", std::string(33, 'k')};
   G.dupKeys = false;
+  const size_t maxLen = detail::StringNode::maxLength;
+  if (maxLen <= 255) {
+    // 1-byte string lengths: strings at and just above the maximum are cheap to enumerate.  The over-long one must be
+    // refused (NoMemory) with or without injected faults, and all memory must still come back.
+    G.leavesTop.push_back(MValue::str(std::string(maxLen, 'm')));
+    G.leavesTop.push_back(MValue::str(std::string(maxLen + 1, 'z')));
+  }
+  std::function<bool(const MValue&)> overlong = [&](const MValue& m) {
+    if (m.kind == MValue::Str && m.s.size() > maxLen) return true;
+    for (auto& e : m.a) if (overlong(e)) return true;
+    for (auto& kv : m.o) if (kv.first.size() > maxLen || overlong(kv.second)) return true;
+    return false;
+  };
   int N = 3;
   (void)thorough;
   MValue filterModel = MValue::object();
@@ -408,7 +421,9 @@ inline void faultInputs(Ctx& C, bool thorough) {
             if (delivered) {
               if (err != DeserializationError::NoMemory) problems += std::string("not-reported\tan allocation failed but the result is ") + err.c_str() + "\n";
               if (!doc.overflowed()) problems += "not-reported\tan allocation failed but overflowed() is false\n";
-            } else if (err != DeserializationError::Ok) {
+            } else if (overlong(tree) && filt == 0) {
+              if (err != DeserializationError::NoMemory) problems += std::string("not-reported\ta string longer than the maximum gave ") + err.c_str() + " instead of NoMemory\n";
+            } else if (err != DeserializationError::Ok && !overlong(tree)) {
               problems += std::string("generator\tfault-free run of a valid input returned ") + err.c_str() + "\n";
             }
             std::string obs = obsReal(doc.as<JsonVariantConst>());
